@@ -15,7 +15,7 @@ func init() {
 		run: runC10,
 		explanation: "Decided (structural, for every query tree): " +
 			"C10.exhaustive — the formatter's switch over the expression oneof has a case for every wrapper type, and each case formats that wrapper's own member; " +
-			"C10.parens — the parenthesisation table required by the parser (operands of '&', '|' and '^' are parsed by the simple-expression function, which yields AND/OR only through a parenthesised group — re-checked on the parser on every run) is T[NOT] ⊇ {AND, OR}, T[AND] ⊇ {OR}, T[OR] ⊇ {AND}; each operator formatter is symbolically executed once per assumed operand kind (getter/type tests on the operand resolved by the assumption, all other branches explored both ways): on every path each recursive formatting call for a kind in the table is immediately preceded by a write containing '(' and followed by one containing ')', and for other kinds writes are balanced; " +
+			"C10.parens — the parenthesisation table required by the parser (operands of '&', '|' and '^' are parsed by the simple-expression function, which yields AND/OR only through a parenthesised group — re-checked on the parser on every run) is T[NOT] ⊇ {AND, OR}, T[AND] ⊇ {OR}, T[OR] ⊇ {AND}; each operator formatter is symbolically executed once per assumed operand kind (getter/type tests on the operand resolved by the assumption, all other branches explored both ways; helpers of the formatter are executed in place with their parameters bound to the call's arguments — a flag to its value, a predicate parameter to the function passed, whose verdict is evaluated under the same assumption): on every path each recursive formatting call for a kind in the table is immediately preceded by a write containing '(' and followed by one containing ')', and for other kinds writes are balanced; " +
 			"C10.quote — the formatter doubles quotes with ReplaceAll(s, `\"`, `\"\"`) and wraps in `\"%s\"`, the parser's decoder undoes it with the swapped constants; C10.lexinput — the lexer scans exactly the string passed to ParseQuery (no rewriting of the raw text, which would alter quoted values); C10.unquote — the decoder removes exactly one delimiter at each end (only s[1:], s[:len-1], TrimPrefix/TrimSuffix of one quote) before undoing the doubling; comparison and placeholder formats are `%s = %s` / `%s = $%d` with the value passed through the quoting function; the group-by list is joined by ',' after ';' (the text a formatting function produces is followed through returning and builder-writing helpers alike); " +
 			"C10.fieldtoken — the lexer state that scans identifiers emits the one constant token kind the parser requires in front of a comparison on every path (never a kind chosen from the scanned word), so every column name the formatter writes comes back as a field; " +
 			"C10.fieldverbatim — the column stored in a comparison node and every element of the group-by list is the field token's text itself (followed through variables, parameters and parser helpers; no call, re-slice or concatenation applied to it). " +
@@ -215,6 +215,11 @@ func matchSeq(ev string, strict bool) bool {
 // simulateFormatter explores the paths of an operator formatter under the assumption that every operand it formats has
 // the given kind, and returns the sequence of events (O: write containing '(', C: write containing ')', R: recursive
 // formatting call) of each path. Branch conditions that test the operand's kind are resolved; others are explored both ways.
+// Where the decision about parentheses sits does not matter: inline, in a helper that is handed a flag
+// (writeOperand(b, e, needsParens)), or in a predicate — a bool-valued function of the package called directly or
+// handed to the helper as a function value (writeOperands(b, es, sep, func(e) bool { return e.GetOr() != nil })): helper
+// parameters are bound to the call's arguments and the predicate's verdict is evaluated under the assumed kind; a verdict
+// that depends on anything else (the operand count, the index) is unknown, so both outcomes are explored.
 func simulateFormatter(c *Ctx, f, exprFmt *ssa.Function, kindFmt map[string]*ssa.Function, kind string) ([]string, string) {
 	getterKind := func(v ssa.Value) (string, bool) {
 		call, ok := v.(*ssa.Call)
@@ -234,9 +239,140 @@ func simulateFormatter(c *Ctx, f, exprFmt *ssa.Function, kindFmt map[string]*ssa
 		}
 		return k, true
 	}
+	// Function values handed to a helper ("which operands need parentheses" passed as a predicate) travel in the same
+	// per-path environment as the boolean assumptions: a function-typed parameter is bound to fnBase + the index of
+	// the function in fns.
+	const fnBase = 100
+	var fns []*ssa.Function
+	isBoolT := func(t types.Type) bool {
+		bt, ok := t.Underlying().(*types.Basic)
+		return ok && bt.Info()&types.IsBoolean != 0
+	}
+	// funcValue: the function a function-typed value denotes on this path (a named function, a literal, or a
+	// function-typed parameter bound on inlining); nil if unknown.
+	funcValue := func(v ssa.Value, phis map[ssa.Value]int) *ssa.Function {
+		for n := 0; n < 4; n++ {
+			if ct, ok := v.(*ssa.ChangeType); ok {
+				v = ct.X
+				continue
+			}
+			break
+		}
+		switch x := v.(type) {
+		case *ssa.Function:
+			return x
+		case *ssa.MakeClosure:
+			g, _ := x.Fn.(*ssa.Function)
+			return g
+		case *ssa.Parameter:
+			if n, ok := phis[x]; ok && n >= fnBase && n-fnBase < len(fns) {
+				return fns[n-fnBase]
+			}
+		}
+		return nil
+	}
 	var evalBool func(v ssa.Value, phis map[ssa.Value]int) int // 1 true, 0 false, -1 unknown
+	// bindParams: the environment of helper g entered with args: boolean parameters get the value of their argument
+	// under the caller's environment (-1 if unknown), function-typed parameters the function their argument denotes.
+	bindParams := func(g *ssa.Function, args []ssa.Value, phis map[ssa.Value]int) map[ssa.Value]int {
+		env := map[ssa.Value]int{}
+		for k, par := range g.Params {
+			if k >= len(args) {
+				break
+			}
+			if isBoolT(par.Type()) {
+				env[par] = evalBool(args[k], phis)
+			} else if _, isSig := par.Type().Underlying().(*types.Signature); isSig {
+				if h := funcValue(args[k], phis); h != nil {
+					env[par] = fnBase + len(fns)
+					fns = append(fns, h)
+				}
+			}
+		}
+		return env
+	}
+	// evalPred evaluates a bool-valued predicate of the formatter package (`func(operand) bool { return
+	// operand.GetOr() != nil }`, needsParens(operand), …) under the operand-kind assumption: its paths are followed
+	// with kind tests resolved and other conditions taken both ways; the verdict is known if every return it can
+	// reach yields the same known value.
+	predDepth := 0
+	evalPred := func(g *ssa.Function, env map[ssa.Value]int) int {
+		if g == nil || g.Blocks == nil || predDepth >= 3 {
+			return -1
+		}
+		predDepth++
+		defer func() { predDepth-- }()
+		res, steps := -2, 0
+		var run func(b, prev *ssa.BasicBlock, phis map[ssa.Value]int, visits map[*ssa.BasicBlock]bool)
+		run = func(b, prev *ssa.BasicBlock, phis map[ssa.Value]int, visits map[*ssa.BasicBlock]bool) {
+			steps++
+			if res == -1 || steps > 2000 || visits[b] {
+				res = -1 // (a loop inside a predicate is not followed)
+				return
+			}
+			v2 := map[*ssa.BasicBlock]bool{b: true}
+			for k := range visits {
+				v2[k] = true
+			}
+			p2 := map[ssa.Value]int{}
+			for k, n := range phis {
+				p2[k] = n
+			}
+			for _, ins := range b.Instrs {
+				switch x := ins.(type) {
+				case *ssa.Phi:
+					for k, pr := range b.Preds {
+						if pr == prev {
+							p2[x] = evalBool(x.Edges[k], phis)
+						}
+					}
+				case *ssa.If:
+					r := evalBool(x.Cond, p2)
+					if r != 0 {
+						run(b.Succs[0], b, p2, v2)
+					}
+					if r != 1 {
+						run(b.Succs[1], b, p2, v2)
+					}
+					return
+				case *ssa.Jump:
+					run(b.Succs[0], b, p2, v2)
+					return
+				case *ssa.Return:
+					r := -1
+					if len(x.Results) == 1 {
+						r = evalBool(x.Results[0], p2)
+					}
+					if r < 0 || (res >= 0 && res != r) {
+						res = -1
+					} else {
+						res = r
+					}
+					return
+				case *ssa.Panic:
+					return
+				}
+			}
+		}
+		run(g.Blocks[0], nil, env, nil)
+		if res < 0 {
+			return -1
+		}
+		return res
+	}
 	evalBool = func(v ssa.Value, phis map[ssa.Value]int) int {
 		switch x := v.(type) {
+		case *ssa.Call:
+			// the verdict of a predicate: a bool-valued function of the formatter package called directly, or through
+			// a function-typed parameter the helper was handed
+			if x.Call.IsInvoke() || !isBoolT(x.Type()) {
+				break
+			}
+			g := funcValue(x.Call.Value, phis)
+			if g == nil || c.w.pkgPathOf(g) != pkgParser {
+				break
+			}
+			return evalPred(g, bindParams(g, x.Call.Args, phis))
 		case *ssa.Const:
 			if b, ok := constBool(x); ok {
 				if b {
@@ -429,15 +565,10 @@ func simulateFormatter(c *Ctx, f, exprFmt *ssa.Function, kindFmt map[string]*ssa
 				return
 			case *ssa.Call:
 				// a helper of the formatter package that is not itself a formatter of a kind: inline it
-				if g := calleeFunc(&x.Call); g != nil && !isFormatter(g) && c.w.pkgPathOf(g) == pkgParser && g.Blocks != nil && depth < 2 && writesOrFormats(g, isFormatter) {
-					env := map[ssa.Value]int{}
-					for k, par := range g.Params {
-						if k < len(x.Call.Args) {
-							if bt, ok := par.Type().Underlying().(*types.Basic); ok && bt.Info()&types.IsBoolean != 0 {
-								env[par] = evalBool(x.Call.Args[k], p2)
-							}
-						}
-					}
+				if g := calleeFunc(&x.Call); g != nil && !isFormatter(g) && c.w.pkgPathOf(g) == pkgParser && g.Blocks != nil && depth < 3 && writesOrFormats(g, isFormatter) {
+					// its parameters are bound to the call's arguments: a flag to its value under the assumed operand
+					// kind, a predicate parameter to the function passed
+					env := bindParams(g, x.Call.Args, p2)
 					bb, nextIdx, pp, vv := b, idx+1, p2, v2
 					exec(g.Blocks[0], nil, 0, env, map[*ssa.BasicBlock]int{}, ev, depth+1, func(ev2 string) {
 						exec(bb, prev, nextIdx, pp, vv, ev2, depth, cont)
@@ -454,21 +585,36 @@ func simulateFormatter(c *Ctx, f, exprFmt *ssa.Function, kindFmt map[string]*ssa
 	return results, why
 }
 
-// writesOrFormats: g (a helper) writes to the output or calls a formatter, directly.
+// writesOrFormats: g (a helper) writes to the output or calls a formatter — itself or through further helpers of its
+// package (writeOperands → writeOperand → the recursive formatter).
 func writesOrFormats(g *ssa.Function, isFormatter func(*ssa.Function) bool) bool {
-	found := false
-	allInstrs(g, func(i ssa.Instruction) {
-		if call, ok := i.(*ssa.Call); ok {
-			if f := calleeFunc(&call.Call); f != nil && isFormatter(f) {
-				found = true
+	seen := map[*ssa.Function]bool{}
+	var visit func(g *ssa.Function, depth int) bool
+	visit = func(g *ssa.Function, depth int) bool {
+		if g == nil || g.Blocks == nil || seen[g] || depth > 3 {
+			return false
+		}
+		seen[g] = true
+		found := false
+		allInstrs(g, func(i ssa.Instruction) {
+			call, ok := i.(*ssa.Call)
+			if !ok || found {
+				return
 			}
 			switch calleeName(&call.Call) {
-			case "(*strings.Builder).WriteString", "(*strings.Builder).WriteByte", "(*strings.Builder).WriteRune", "fmt.Fprintf", "fmt.Fprint":
+			case "(*strings.Builder).WriteString", "(*strings.Builder).WriteByte", "(*strings.Builder).WriteRune", "fmt.Fprintf", "fmt.Fprint", "(*bytes.Buffer).WriteString", "io.WriteString":
 				found = true
+				return
 			}
-		}
-	})
-	return found
+			if f := calleeFunc(&call.Call); f != nil {
+				if isFormatter(f) || (f.Pkg == g.Pkg && f.Pkg != nil && visit(f, depth+1)) {
+					found = true
+				}
+			}
+		})
+		return found
+	}
+	return visit(g, 0)
 }
 
 func c10Quote(c *Ctx, exprFmt *ssa.Function, kindFmt map[string]*ssa.Function) {
